@@ -1365,11 +1365,32 @@ def coq_binfo(case, obs):
 NO_CLAIM = ("drop_child_opt", "drop_attr_opt", "dup_child_free")
 
 
+def expected_exc(case):
+    """Calls of the generator that are known to raise on the unchanged tree (nothing is emitted; listed in
+    notes/C13.md as observations outside this property).  Any OTHER exception is a change of behaviour and is
+    reported as a disagreement."""
+    a, b = case["a"], case["b"]
+    if b == "logout_request" and not a.get("subject_id") and a.get("name_id") is None:
+        return "saml"                       # SAMLError("Missing subject identification")
+    if b == "artifact_response" and (a.get("sign") or (a.get("sign") is None and _should_sign(case))):
+        return "attribute"                  # the signed text has no .extension_elements
+    if b == "ecp_authn_request" and a.get("sign"):
+        return "attribute"                  # make_soap_enveloped_saml_thingy gets the signed text
+    if b == "ecp_authn_response" and (a.get("sign_response") or a.get("sign_assertion")):
+        return "attribute"                  # element_to_extension_element gets the signed text
+    if b == "authn_response" and a.get("name_id") is None and (a.get("name_id_policy") or {}).get("format") == EMAIL:
+        return "saml"                       # "Can't issue email nameids, unknown domain"
+    return None
+
+
 def coq_case(case, obs):
     if case["b"] == "lex_instant":
         return "C13.Corr.mk (XInstant %d%%N %s) BOther None false false VNA 0" % (case["a"]["ts"], _cq_str(obs["value"]))
     if case["b"] == "lex_sid":
         return "C13.Corr.mk (XSid %s) BOther None false false VNA 0" % _cq_str(obs["value"])
+    if obs["tree"] is None and case.get("mut") is None and obs["exc"] != expected_exc(case):
+        # an exception the unchanged tree does not raise: flagged through a case that cannot agree
+        return "C13.Corr.mk (XSid \"\") BOther None false false VNA 0"
     t = "None" if obs["tree"] is None else "(Some %s)" % cq_tree(obs["tree"])
     vi = {"true": "VTrue", "false": "VFalse", "crash": "VCrash", "na": "VNA"}[obs["vi"]]
     mut = 0 if case.get("mut") is None else (2 if obs["mut_kind"] in NO_CLAIM else 1)
@@ -2026,8 +2047,10 @@ def histogram(cases, observed):
     for c, o in zip(cases, observed):
         h["by_tag"][c["tag"]] = h["by_tag"].get(c["tag"], 0) + 1
         h["by_builder"][c["b"]] = h["by_builder"].get(c["b"], 0) + 1
+        if c["b"].startswith("lex_"):
+            continue
         if o["exc"]:
-            k = c["b"] + ":" + o["exc"]
+            k = c["b"] + ":" + o["exc"] + ("" if c.get("mut") is not None or o["exc"] == expected_exc(c) else ":UNEXPECTED")
             h["exceptions"][k] = h["exceptions"].get(k, 0) + 1
             continue
         h["nodes"] += o["size"]
